@@ -22,6 +22,7 @@ type lineSpec struct {
 	Seed  uint64   `json:"seed"`
 	Shape int      `json:"shape"`           // 0 words, 1 paths, 2 short, 3 with blanks/leading spaces
 	Extra []string `json:"extra,omitempty"` // explicit lines appended after the generated ones (targeted replays)
+	Trail int      `json:"trail,omitempty"` // every Trail-th generated line ends in blanks / a tab after its id
 }
 
 const lineAlphabet = "abcdef"
@@ -105,6 +106,9 @@ func genLines(s lineSpec) []string {
 			}
 		}
 		fmt.Fprintf(&b, " #%d", i)
+		if s.Trail > 0 && i%s.Trail == 0 {
+			b.WriteString([]string{" ", "  ", "\t", " \t "}[r.Intn(4)])
+		}
 		out = append(out, b.String())
 	}
 	out = append(out, s.Extra...)
